@@ -53,6 +53,9 @@ type Hooks struct {
 	Store func(st *State, obj types.Object, v Val)
 	// Inline resolves a statically-called module function/method to its declaration for inlining.
 	Inline func(fn *types.Func) (*ast.FuncDecl, *types.Info)
+	// FreeClosure resolves a variable that is free in the interpreted body (declared in the enclosing function)
+	// to the function literal it is bound to, when that binding is unique.
+	FreeClosure func(v *types.Var) *ast.FuncLit
 }
 
 type Interp struct {
